@@ -119,9 +119,22 @@ func run(r *ev.Run) {
 			Pre1970:        i%11 == 6,
 			PathChain:      i%4 == 2,
 			ExtraDeletes:   []int{0, 0, 1, 2}[i%4],
+			DeepChain:      i%9 == 7,
 		})
 		wid := fmt.Sprintf("world%d;", i)
 		ord := rand.New(rand.NewSource(wrng.Int63())).Perm(len(w.Blobs))
+		// every 5th world is delivered in claim-date order (the purely incremental cache path: no
+		// re-sort ever repairs the cached attributes), every 5th in reverse date order (always re-sorted)
+		switch i % 5 {
+		case 0:
+			ord = dateOrder(w, false)
+			r.Note("delivery_modes", "claim-date-order")
+		case 1:
+			ord = dateOrder(w, true)
+			r.Note("delivery_modes", "reverse-claim-date-order")
+		default:
+			r.Note("delivery_modes", "random")
+		}
 		if !r.Only(wid) {
 			continue
 		}
@@ -133,13 +146,17 @@ func run(r *ev.Run) {
 	close(jobs)
 	wg.Wait()
 	r.Require("world_features", "claim-set-attribute", "claim-add-attribute", "claim-del-attribute", "delete-of-claim", "delete-of-delete", "delete-of-permanode", "two-signers", "subsecond-date", "foreign-signer-claim",
-		"c07-escaped-attr-name", "c07-repeated-value-del", "c07-same-second-pair", "c07-cross-attr-date-tie", "c07-defvis-history", "c07-two-deleters", "c07-pre-1970-claim", "c07-path-chain")
+		"c07-escaped-attr-name", "c07-repeated-value-del", "c07-same-second-pair", "c07-cross-attr-date-tie", "c07-defvis-history", "c07-two-deleters", "c07-pre-1970-claim", "c07-path-chain", "c07-deep-delete-chain")
 	r.Require("paths", "corpus-live", "corpus-loaded", "index-rows", "describe-classic", "describe-corpus-live", "describe-corpus-loaded", "query-corpus-live", "query-corpus-loaded",
 		"attr-value-corpus-live", "attr-value-corpus-loaded", "has-attr-value-corpus-live", "has-attr-value-corpus-loaded",
 		"claims-fold-classic", "claims-fold-corpus-live", "claims-fold-corpus-loaded", "claims-content", "claims-attrfilter",
 		"query-classic", "query-numvalue-corpus-live", "query-numvalue-corpus-loaded", "query-valueinset-corpus-live", "query-valueinset-corpus-loaded",
 		"query-relation-child-corpus-live", "query-relation-child-corpus-loaded", "query-relation-parent-corpus-live", "query-relation-parent-corpus-loaded",
-		"query-skiphidden-corpus-live", "query-skiphidden-corpus-loaded", "modtime-corpus-live", "modtime-corpus-loaded")
+		"query-skiphidden-corpus-live", "query-skiphidden-corpus-loaded", "modtime-corpus-live", "modtime-corpus-loaded",
+		"paths-lookup-classic", "paths-lookup-corpus-live", "paths-lookup-corpus-loaded", "path-lookup-classic", "path-lookup-corpus-live", "path-lookup-corpus-loaded",
+		"paths-of-target-classic", "paths-of-target-corpus-live", "paths-of-target-corpus-loaded")
+	r.Require("delivery_modes", "claim-date-order", "reverse-claim-date-order", "random")
+	r.Require("signer_filters", "none", "owner", "second-signer", "unknown-key-id")
 	r.Require("time_classes", "zero", "before-all", "between", "exactly-at", "after-all")
 	r.Require("moments", "deleted-claim-present", "undeleted-claim-present", "out-of-order-delivery",
 		"historical-T-with-deleted-claim", "numvalue-judged", "relation-with-deleted-edge-claim", "escaped-attr-filter")
@@ -349,8 +366,15 @@ func checkWorld(r *ev.Run, w *hw.World, wid string, ord []int, smu *sync.Mutex, 
 		num int
 	}
 	signerIDs := []signerSel{{"", 0}, {w.Signers[0].KeyID, 1}}
+	r.Note("signer_filters", "none")
+	r.Note("signer_filters", "owner")
 	if len(w.Signers) > 1 {
 		signerIDs = append(signerIDs, signerSel{w.Signers[1].KeyID, 2})
+		r.Note("signer_filters", "second-signer")
+	} else {
+		// a key id no blob of this world is signed with: no claim is "that signer's"
+		signerIDs = append(signerIDs, signerSel{hw.NewSigner(2).KeyID, 2})
+		r.Note("signer_filters", "unknown-key-id")
 	}
 
 	for _, pn := range w.Permanodes {
@@ -787,7 +811,7 @@ func (c *wc) checkPathRows(pn blob.Ref, attrs []string, times []timeCase) {
 						bad = fmt.Sprintf("has target %s, the claim's value is %s", x.Target, ci.Value)
 					case x.Base != pn || x.Suffix != suffix:
 						bad = fmt.Sprintf("has base %s suffix %q", x.Base, x.Suffix)
-					case x.ClaimDate.Unix() != ci.Date.Unix():
+					case !x.ClaimDate.Equal(ci.Date):
 						bad = fmt.Sprintf("has claim date %s, the claim says %s", x.ClaimDate.Format(time.RFC3339Nano), ci.Date.Format(time.RFC3339Nano))
 					}
 					if bad != "" {
@@ -958,6 +982,31 @@ func keys(m map[string]bool) []string {
 	}
 	sort.Strings(out)
 	return out
+}
+
+// dateOrder is a delivery order in which keys, permanodes and plain blobs come first and all claims
+// (attribute and delete claims) follow sorted by claim date (descending if reverse).
+func dateOrder(w *hw.World, reverse bool) []int {
+	date := map[blob.Ref]time.Time{}
+	for _, ci := range w.Claims {
+		date[ci.Ref] = ci.Date
+	}
+	var head, claims []int
+	for i, b := range w.Blobs {
+		if _, ok := date[b.Ref]; ok {
+			claims = append(claims, i)
+		} else {
+			head = append(head, i)
+		}
+	}
+	sort.SliceStable(claims, func(a, b int) bool {
+		da, db := date[w.Blobs[claims[a]].Ref], date[w.Blobs[claims[b]].Ref]
+		if reverse {
+			return da.After(db)
+		}
+		return da.Before(db)
+	})
+	return append(head, claims...)
 }
 
 func contains(v []string, x string) bool {
